@@ -123,15 +123,20 @@ class HidRig:
         self.seq0 = seq0
 
     def __enter__(self):
-        self.saved = (H.os, H.random, H._hex)
+        # (random and _hex are patched only where the module has them: where the first sequence number
+        # comes from and how reports are logged are not part of any property)
+        self.saved = {k: getattr(H, k) for k in ("os", "random", "_hex") if hasattr(H, k)}
         H.os = self.os
-        H.random = FakeRandom(self.seq0)
-        H._hex = lambda b: "".join("%02X" % (x if isinstance(x, int) else 0) for x in b) \
-            if not any(type(x) is SymInt for x in b) else "<sym>"
+        if "random" in self.saved:
+            H.random = FakeRandom(self.seq0)
+        if "_hex" in self.saved:
+            H._hex = lambda b: "".join("%02X" % (x if isinstance(x, int) else 0) for x in b) \
+                if not any(type(x) is SymInt for x in b) else "<sym>"
         return self
 
     def __exit__(self, *a):
-        H.os, H.random, H._hex = self.saved
+        for k, v in self.saved.items():
+            setattr(H, k, v)
         return False
 
     # ---- deliver a report from the gateway to the driver through its reader callback
